@@ -68,6 +68,8 @@ var profVariants = []profVariant{
 	{"unknown-path-prefix", strings.Replace(okProfile, "ex.p0:", "zz.p0:", 1), 1, "panic"},
 	{"empty-and", "profile: X\nprefixes:\n  ex: http://ex.org/v#\nviolation: [v]\nvalidations:\n  v:\n    targetClass: ex.T\n    and: []\n", 2, "err"},
 	{"rego-syntax", "profile: X\nprefixes:\n  ex: http://ex.org/v#\nviolation: [v]\nvalidations:\n  v:\n    targetClass: ex.T\n    rego: \"this is ((( not rego\"\n", 2, "err"},
+	// the evaluation succeeds but its result has not the shape the report builder expects
+	{"report-shape", "profile: p\nrego_extensions: 'violation = 5'\nvalidations: {}", 7, "err"},
 	{"rego-unsafe-builtin", "profile: X\nprefixes:\n  ex: http://ex.org/v#\nviolation: [v]\nvalidations:\n  v:\n    targetClass: ex.T\n    rego: \"$result = http.send({})\"\n", 2, "err"},
 }
 
@@ -106,6 +108,8 @@ func dataVariants(repo string) []dataVariant {
 		{"trailing-nul", okData + "\x00\x00", -1, ""},
 		{"trailing-text", "[] and then some text", -1, ""},
 		{"trailing-brace-after-object", `{"@id":"http://a","@type":"http://ex.org/v#T"}}`, -1, ""},
+		// a lexical range with a leading zero on a reported node: the policy yields the number 03, which the report encoder refuses
+		{"report-encode-leading-zero", `[{"@id":"http://ex.org/n/1","@type":["http://ex.org/v#T"]},{"@id":"http://ex.org/l/1","http://a.ml/vocabularies/document-source-maps#element":"http://ex.org/n/1","http://a.ml/vocabularies/document-source-maps#value":"[(03,0)-(18,8)]"},{"@id":"http://ex.org/sm","@type":["http://a.ml/vocabularies/document-source-maps#SourceMap"],"http://a.ml/vocabularies/document-source-maps#lexical":[{"@id":"http://ex.org/l/1"}]},{"@id":"http://ex.org/info","@type":["http://a.ml/vocabularies/document#BaseUnitSourceInformation"],"http://a.ml/vocabularies/document#rootLocation":"file:///root.raml"}]`, 7, "err"},
 		{"empty", "", 3, "err"},
 		{"whitespace", "  \n\t ", 3, "err"},
 		{"truncated", okData[:len(okData)/2], 3, "err"},
